@@ -101,6 +101,16 @@ def _corpus(prop: str) -> list[dict]:
     return out
 
 
+def _async_probe(seed: int, n: int) -> list:
+    """C10 / C08 through the real AsyncExecutor and task managers (oracle only; see harness/sched_async.py)"""
+    env = {'PYTHONPATH': f'{coqrun.REPO}/src:{VERIF}', 'PYTHONHASHSEED': '0', 'PATH': '/usr/bin:/bin', 'TZ': 'UTC'}
+    r = subprocess.run(['/venv/bin/python', '-m', 'harness.sched_async', str(n), str(seed)], cwd=VERIF, env=env,
+                       capture_output=True, text=True, timeout=600)
+    if r.returncode != 0:
+        return [{'what': 'asynchronous-executor scenarios crashed: ' + r.stderr[-600:], 'case': {'kind': 'async', 'seed': seed}}]
+    return [{'what': w, 'case': {'kind': 'async', 'seed': seed}} for w in json.loads(r.stdout)]
+
+
 def run(prop: str, tier: str, seed: int, scratch: Path, replay=None, model_ok=True) -> dict:
     rng = random.Random(f'{prop}-{seed}')
     if replay:
@@ -134,6 +144,9 @@ def run(prop: str, tier: str, seed: int, scratch: Path, replay=None, model_ok=Tr
         for k, msg in bad[:1]:
             spec_violations.append({'what': msg, 'op_index': k, 'case': ccase, 'observed': obs[k],
                                     'all': [m for _, m in bad[:5]]})
+
+    if prop in ('C10', 'C08') and not replay:
+        spec_violations += _async_probe(seed, 40 if tier == 'quick' else 400)
 
     # evaluate the model inside Coq on the same histories
     corr_failures = []
